@@ -421,7 +421,7 @@ def run_check(prop, tier, seed, replay=None):
         raise SystemExit("harness does not build against %s (exit 2)" % REPO)
 
     # 4 run impl
-    n = prop.sizes[tier]
+    n = int(os.environ.get("VERIF_N") or prop.sizes[tier])
     trace = os.path.join(work, "trace.jsonl")
     cases = []
     corpus_n = 0
